@@ -65,33 +65,42 @@ def _process_step_expression(
             return (target_assets, step_expression['name'])
 
         case 'union' | 'intersection' | 'difference':
-            # The set operators are used to combine the left hand and right
-            # hand targets accordingly.
-            lh_targets, lh_attack_steps = _process_step_expression(
-                lang_graph, model, target_assets, step_expression['lhs'])
-            rh_targets, rh_attack_steps = _process_step_expression(
-                lang_graph, model, target_assets, step_expression['rhs'])
-
+            # The set operators combine what each target asset reaches through
+            # the left hand and the right hand expressions. They are applied
+            # per target asset: 'a.(b - c)' is every b of an asset reached by a
+            # that is not a c of that same asset.
             new_target_assets = []
-            match (step_expression['type']):
-                case 'union':
-                    new_target_assets = list(lh_targets)
-                    for ag_node in rh_targets:
-                        if next((lnode for lnode in new_target_assets \
-                            if lnode.id == ag_node.id), None) is None:
-                            new_target_assets.append(ag_node)
+            for target_asset in target_assets:
+                lh_targets, lh_attack_steps = _process_step_expression(
+                    lang_graph, model, [target_asset], step_expression['lhs'])
+                rh_targets, rh_attack_steps = _process_step_expression(
+                    lang_graph, model, [target_asset], step_expression['rhs'])
 
-                case 'intersection':
-                    for ag_node in rh_targets:
-                        if next((lnode for lnode in lh_targets \
-                            if lnode.id == ag_node.id), None):
-                            new_target_assets.append(ag_node)
+                combined_assets = []
+                match (step_expression['type']):
+                    case 'union':
+                        combined_assets = list(lh_targets)
+                        for ag_node in rh_targets:
+                            if next((lnode for lnode in combined_assets \
+                                if lnode.id == ag_node.id), None) is None:
+                                combined_assets.append(ag_node)
 
-                case 'difference':
-                    for ag_node in lh_targets:
-                        if next((rnode for rnode in rh_targets \
-                            if rnode.id == ag_node.id), None) is None:
-                            new_target_assets.append(ag_node)
+                    case 'intersection':
+                        for ag_node in rh_targets:
+                            if next((lnode for lnode in lh_targets \
+                                if lnode.id == ag_node.id), None):
+                                combined_assets.append(ag_node)
+
+                    case 'difference':
+                        for ag_node in lh_targets:
+                            if next((rnode for rnode in rh_targets \
+                                if rnode.id == ag_node.id), None) is None:
+                                combined_assets.append(ag_node)
+
+                for ag_node in combined_assets:
+                    if next((asset for asset in new_target_assets \
+                        if asset.id == ag_node.id), None) is None:
+                        new_target_assets.append(ag_node)
 
             return (new_target_assets, None)
 
